@@ -199,9 +199,10 @@ Proof.
     rewrite mul32_ok by exact Hmul. cbn [bind].
     rewrite add32_ok by lia. cbn [bind].
     unfold bpb_fs_info_block. rewrite Ety.
-    destruct (N.leb_spec (bpb_total_blocks blk) (bpb_fs_info (bpb_data b))) as [Hloc|Hloc]; [discriminate|].
+    destruct ((bpb_fs_info (bpb_data b) =? 0) || (bpb_reserved_block_count blk <=? bpb_fs_info (bpb_data b))) eqn:Hloc; [discriminate|].
+    apply Bool.orb_false_iff in Hloc. destruct Hloc as [_ Hloc]. apply N.leb_gt in Hloc.
     rewrite Hdata in Hloc.
-    rewrite Hdata, add32_ok by lia. cbn [bind].
+    rewrite Hdata, add32_ok by (unfold bpb_non_data in *; lia). cbn [bind].
     destruct (dev (lba + bpb_fs_info blk)) as [ib|]; cbn [bind]; [|discriminate].
     assert (Hi := info_create_no_panic ib).
     destruct (info_create ib) as [i|e|]; cbn [bind]; [discriminate|discriminate|contradiction].
@@ -472,7 +473,8 @@ Proof.
     rewrite mul32_ok by (unfold U32_MAX; lia). cbn [bind].
     rewrite add32_ok by (unfold U32_MAX; lia). cbn [bind].
     rewrite Ffi, Frc, Flab.
-    destruct (N.leb_spec (g_total g) (g_fs_info g)) as [Hbad|_]; [lia|].
+    replace ((g_fs_info g =? 0) || (g_reserved g <=? g_fs_info g)) with false
+      by (symmetry; apply Bool.orb_false_iff; split; [apply N.eqb_neq|apply N.leb_gt]; lia).
     rewrite add32_ok by (unfold U32_MAX; lia). cbn [bind].
     rewrite format_with_info by (assumption || lia). cbn [bind].
     destruct (info_create ib) as [i|e|]; cbn [bind]; try reflexivity.
